@@ -293,3 +293,25 @@ func verif_contract_fastlog_Line_Bytes(l *Line, name string, value []byte) *Line
 	vEnsures(r == l && l.index == old+len(name)+len(value)+2)
 	return r
 }
+
+// ---------- truncating appenders: for ANY value length, no panic, index stays inside ----------
+
+func verif_inv_fastlog_Line_ByteArray_1(l *Line, rangeindex int, value []byte) bool {
+	return l != nil && -1 <= rangeindex && rangeindex < len(value) && 0 <= l.index &&
+		l.index+3*(len(value)-rangeindex-1)+1 <= bufSize
+}
+func verif_dec_fastlog_Line_ByteArray_1(rangeindex int, value []byte) int {
+	return len(value) - rangeindex
+}
+
+//verif:props C20
+func verif_contract_fastlog_Line_ByteArray(l *Line, name string, value []byte) *Line {
+	vRequires(spec_line_wf(l) && l.index+len(name)+4 <= bufSize)
+	vRequires(!vSameRegion(value, l.buffer[:]))
+	vCanary()
+	vModifiesField(l, "index")
+	vModifiesBytes(l.buffer[:])
+	r := l.ByteArray(name, value)
+	vEnsures(r == l && 0 <= l.index && l.index <= bufSize)
+	return r
+}
